@@ -450,18 +450,18 @@ def o4_mortar(ctx):
                bad_detail=f"mortar integral is `{src(e)[:160]}`, not dot(0.5*(weights of side A + weights of side B), integrand values)")
     tA = f"{lA} * (smooth_linear({xiA}, {sm})[1] - smooth_linear({xiA}, {sm})[0]) * {Q}.wgauss"
     tB = f"{lB} * jnp.abs(smooth_linear({xiB}, {sm})[1] - smooth_linear({xiB}, {sm})[0]) * {Q}.wgauss"
-    if wa is not None and not same(wa, tA) and same(wb, tA):
+    if wa is not None and not sem_same(wa, tA, sc) and sem_same(wb, tA, sc):
         wa, wb = wb, wa
-    ctx.decide(rule, wa is not None and same(wa, tA), sc, None, construct="weight-A", detail="lengthA * (smooth(xiA)[1] - smooth(xiA)[0]) * w",
+    ctx.decide(rule, wa is not None and sem_same(wa, tA, sc), sc, None, construct="weight-A", detail="lengthA * (smooth(xiA)[1] - smooth(xiA)[0]) * w",
                bad_detail=f"side-A weights are `{src(wa)[:140] if wa is not None else '?'}`")
-    ctx.decide(rule, wb is not None and same(wb, tB), sc, None, construct="weight-B", detail="lengthB * |smooth(xiB)[1] - smooth(xiB)[0]| * w",
+    ctx.decide(rule, wb is not None and sem_same(wb, tB, sc), sc, None, construct="weight-B", detail="lengthB * |smooth(xiB)[1] - smooth(xiB)[0]| * w",
                bad_detail=f"side-B weights are `{src(wb)[:140] if wb is not None else '?'}`")
     ctx.decide(rule, rule_deg == 2, sc, None, construct="gauss-rule-degree", detail="two-point Gauss rule (degree 2)", bad_detail=f"edge quadrature degree is {rule_deg}")
     # quadrature parameters interpolate the same fields linearly
     args_ = F_.args if isinstance(F_, ast.Call) and isinstance(F_.func, ast.Call) and (dotted(F_.func.func) or "").endswith("vmap") \
         and F_.func.args and same(F_.func.args[0], fn) and len(F_.args) == 3 else [None, None, None]
     for a_, fld, nm in zip(args_, (xiA, xiB, g), ("quadXiA", "quadXiB", "gs")):
-        ok = a_ is not None and same(a_, f"jax.vmap(eval_linear_field_on_edge, (None, 0))({fld}, {Q}.xigauss)")
+        ok = a_ is not None and sem_same(a_, f"jax.vmap(eval_linear_field_on_edge, (None, 0))({fld}, {Q}.xigauss)", sc)
         ctx.decide(rule, ok, sc, None, construct=f"{nm}:linear-interpolation-of-{fld}", detail=f"argument interpolates {fld} at the Gauss points",
                    bad_detail=f"the integrand's argument for {fld} is `{src(a_)[:120] if a_ is not None else '?'}`, not the linear interpolation of {fld} at the Gauss points")
     el = ctx.need(f"{MC}:eval_linear_field_on_edge")
